@@ -21,6 +21,11 @@ Theorem C01_fasta_next_refines_spec : forall inp cap0 rs ss pol fuel ffuel n,
 Proof. exact fa_next_refines_spec. Qed.
 Print Assumptions C01_fasta_next_refines_spec.
 
+(** the policy hypothesis is met by the library's default policy and by DoubleUntil(a >= 1) *)
+Theorem C01_policy_hypothesis_satisfiable : PolOk pol_std /\ (forall a, 1 <= a -> PolOk (pol_double_until a)).
+Proof. split; [exact PolOk_std | exact PolOk_double_until]. Qed.
+Print Assumptions C01_policy_hypothesis_satisfiable.
+
 (** what "matches" means, pinned: a record outcome carries exactly the
     specification item's header, lines and coordinates *)
 Theorem C01_match_is_exact : forall rc pos i,
